@@ -15,7 +15,7 @@ RULE = ("case = initial account/slot table + script tree (depth <= 6, <= 60 ops,
         "(Add/SubBalance incl. sub-unibi dust, SetNonce, SetCode, SetState, selfdestruct, create, AddLog, refund, access list), "
         "reads (GetBalance, GetState), Snapshot/RevertToSnapshot frames and precompile invocations (CacheCtxForPrecompile, "
         "SavePrecompileCalledJournalChange, CommitCacheCtx, bank SendCoins of unibi on the cache ctx, failing or not) executed "
-        "on the real statedb.StateDB + bank keeper; first the historic failure shapes F2/F2b/F2c/F2d, probe16 and a 12-call "
+        "on the real statedb.StateDB + bank keeper; blocked module accounts (distribution, fee collector) as credit targets so that the flush before a precompile call fails half-way; write-backs of tx-start values after later calls; evm.create on funded objects; first the historic failure shapes F2/F2b/F2c/F2d, probe16 and a 12-call "
         "script; non-trivial = a frame (or failing call) that contains a precompile call is reverted while an EVM write or "
         "bank move made before/inside/after it has to be kept or dropped; distinct = distinct input")
 ASSUMPTIONS = [
@@ -89,16 +89,20 @@ def to_coq_case(rec):
             oaccs.append("(%s, Some (%s, (-1)%%Z, (-1)%%Z))" % (_z(a[0]), _z(a[2])))
         else:
             oaccs.append("(%s, Some (%s, %s, %s))" % (_z(a[0]), _z(a[2]), _z(a[3]), _z(a[4])))
-    bad = ob.get("panic") or ob.get("commit_err")
-    logs = -1 if bad else ob["logs"]
-    o = ("{| o_accs := [%s]; o_stor := [%s]; o_logs := %s; o_refund := %s; o_al := [%s]; o_als := [%s]; o_views := [%s] |}" % (
+    bad = bool(ob.get("panic") or ob.get("commit_err"))
+    # supply change not explained by the observed accounts (e.g. coins minted into the evm module account)
+    init_bal = {a[0]: a[1] for a in i["accs"]}
+    leak = int(ob.get("supply_delta", "0")) - sum(a[2] - init_bal.get(a[0], 0) for a in ob["accs"]) + sum(init_bal.values()) - sum(init_bal.get(a[0], 0) for a in ob["accs"])
+    o = ("{| o_accs := [%s]; o_stor := [%s]; o_logs := %s; o_refund := %s; o_leak := %s; o_al := [%s]; o_als := [%s]; o_views := [%s] |}" % (
         "; ".join(oaccs),
         "; ".join("(%s, %s, %s)" % (_z(s[0]), _z(s[1]), _z(s[2])) for s in ob["stor"]),
-        _z(logs), _z(ob["refund"]),
+        _z(ob["logs"]), _z(ob["refund"]), _z(leak),
         "; ".join("(%s, %s)" % (_z(a[0]), "true" if a[1] else "false") for a in ob["al"]),
         "; ".join("(%s, %s, %s)" % (_z(a[0]), _z(a[1]), "true" if a[2] else "false") for a in ob["als"]),
         "; ".join("(%s, %s, %s)" % (_z(v[0]), _z(v[1]), _z(v[2])) for v in ob["views"])))
-    return "{| c_accs := [%s]; c_stor := [%s]; c_script := %s; c_obs := %s |}" % (accs, stor, _body(i["script"]), o)
+    blocked = "; ".join(_z(b) for b in i.get("blocked", []))
+    return "{| c_accs := [%s]; c_stor := [%s]; c_script := %s; c_blocked := [%s]; c_fail := %s; c_obs := %s |}" % (
+        accs, stor, _body(i["script"]), blocked, "true" if bad else "false", o)
 
 
 def _walk(ops, depth=0, in_rev=False):
@@ -160,7 +164,9 @@ def classify(rec):
     ks.append("precompile_calls=%s" % (str(pcs) if pcs <= 3 else "4-10" if pcs <= 10 else "11+"))
     ob = rec["obs"]
     if ob.get("limit_errs"):
-        ks.append("limit_hit")
+        ks.append("call_refused")
+    if ob.get("flush_errs"):
+        ks.append("flush_failed")
     if ob.get("panic"):
         ks.append("panic")
     if ob.get("commit_err"):
@@ -202,8 +208,10 @@ def shrink_candidates(inp):
     for s in variants(inp["script"]):
         if s:
             out.append({"accs": inp["accs"], "stor": inp["stor"], "script": s})
+    for o in out:
+        o["blocked"] = inp.get("blocked", [])
     if inp["stor"]:
-        out.append({"accs": inp["accs"], "stor": [], "script": inp["script"]})
+        out.append({"accs": inp["accs"], "stor": [], "script": inp["script"], "blocked": inp.get("blocked", [])})
     return out
 
 
@@ -218,7 +226,8 @@ MANIFEST = {
                  "and cache store, as repaired by 72672e0) equals the final state of a copy-on-frame reference, i.e. a reverted "
                  "frame undoes exactly its own EVM and bank effects. Companion theorems: reverted frames are invisible up to "
                  "caching (P1), balance views agree inside every precompile body, reads see the reference, calls beyond "
-                 "maxMultistoreCacheCount are refused without effect, and vm_compute witnesses refute the property for the "
+                 "maxMultistoreCacheCount - or whose pre-run flush fails half-way because a blocked module account would have to be "
+                 "credited - are refused without effect (the written prefix is undone), and vm_compute witnesses refute the property for the "
                  "pre-fix behaviour (F2, F2b, F2c, F2d). The design's proof plan P1-P5 was completed; the bounded fallback "
                  "was not needed. The model is run on every check against the real statedb.StateDB + bank keeper on the "
                  "same generated scripts (two drivers: API calls one by one and through precompile.OnRunStart) and the "
